@@ -131,8 +131,10 @@ def handle (st : S) : List String → Option (S × String)
     match commonAncestor st.store hs with
     | .found r => some (st, "found:" ++ r.hash)
     | .notFound => some (st, "err:notfound")
-    | .nilResult => some (st, "nil")
-    | .panicEmpty => some (st, "panic")
+    -- after the repairs 397583f / 15c8125 the service answers these two outcomes with structured 400 errors
+    -- (ErrAncestorNotFound / ErrCommonAncestorEmptyList); the constructor names are kept from the original code
+    | .nilResult => some (st, "err:notfound")
+    | .panicEmpty => some (st, "err:empty")
   | "ilv" :: "init" :: hexes =>
     match hexes.mapM parseHeader with
     | none => some (st, "bad-header")
